@@ -97,9 +97,12 @@ def _work(arg):
 def run_cases(ctx, cs, tag):
     global _BASE
     _BASE = ctx.sub('layouts_' + tag)
-    out = jutil.pmap(_work, list(enumerate(cs)), chunksize=1)
+    items = list(enumerate(cs))
+    # never run jedi in the parent: its helper thread/locks do not survive the fork of later pools
+    padded = items + [(1000000 + k, items[-1][1]) for k in range(max(0, 4 - len(items)))]
+    out = jutil.pmap(_work, padded, procs=max(2, min(14, len(padded))), chunksize=1)
     jutil.check_worker_errors(out)
-    return out
+    return out[:len(items)]
 
 
 # ---------------------------------------------------------------- judging
@@ -366,7 +369,8 @@ def run(ctx):
     ctx.add_tlc(res, 'case emission slice %d mod %d %s' % (ctx.seed % mod, mod, emit_kw))
     cs = cases(res)
     # larger layouts by simulation (random walks through the builder actions)
-    sim_kw = dict(nodes=5, depth=3, names=('pka', 'pkb', 'pkc'), level=3, frompath=2)
+    sim_kw = dict(nodes=4, depth=3, level=3, frompath=1) if quick else \
+        dict(nodes=5, depth=3, names=('pka', 'pkb', 'pkc'), level=3, frompath=2)
     cfg = write_cfg(ctx, 'sim.cfg', emit=True, **sim_kw)
     nsim = 40 if quick else 800
     res = run_tlc('Imports', cfg, workers=1, timeout=300 if quick else 1200,
